@@ -27,7 +27,15 @@
 //! allocator's event log and the field snapshot) ↔ the model must accept the event and reproduce the
 //! fates and the owed/alloc/free counters; `ledger ep <entry point> …` — class of the final ledger
 //! (`clean`/`leak`/`foreign`); `ledger log <events>` — the raw log of the opaque entry points judged
-//! by the Lean spec-side judge ↔ the Rust accounting.
+//! by the Lean spec-side judge ↔ the Rust accounting; `ledger cq <cap0> <pushes>` — the IR logger's
+//! command queue of one logged meta-block (first allocation, doublings, release, taken from the
+//! allocator log; pushes = length of the IR handed to the callback) ↔ the model's `cqPushN`/`cqFree`.
+//!
+//! **Default allocator of the C ABI** (`alloc_func = NULL`): a counting `#[global_allocator]`
+//! (pass-through to `System` unless switched on) is switched on only in the child processes
+//! `bvh ledger gchild <seed> <n>`; per scenario (create/dictionary/stream/destroy incl. destroy before
+//! finish, one-shot, multi, work pool) the process heap must return to its level before the call
+//! (blocks and bytes) → `ledger:default-alloc-leak:<scenario>`.
 //!
 //! Non-trivial case = at least one block was allocated (multi-threaded: every per-thread allocator
 //! was used).  Regression corpus = the minimal reproductions of the defects found with this engine,
@@ -470,9 +478,9 @@ pub trait Inst {
 fn op_of(op: u32) -> BrotliEncoderOperation {
     match op { 0 => BrotliEncoderOperation::BROTLI_OPERATION_PROCESS, 1 => BrotliEncoderOperation::BROTLI_OPERATION_FLUSH, 2 => BrotliEncoderOperation::BROTLI_OPERATION_FINISH, _ => BrotliEncoderOperation::BROTLI_OPERATION_EMIT_METADATA }
 }
-pub struct RustInst { pub s: BrotliEncoderStateStruct<CAlloc>, pub led: Ledger, pub ext: UnionHasher<CAlloc>, ev0: usize, pub ir_calls: u64 }
+pub struct RustInst { pub s: BrotliEncoderStateStruct<CAlloc>, pub led: Ledger, pub ext: UnionHasher<CAlloc>, ev0: usize, pub ir_calls: u64, pub cq: Vec<(String, String)>, pub cq_unpaired: u64 }
 impl RustInst {
-    pub fn new() -> RustInst { let (a, led) = CAlloc::new(); RustInst { s: BrotliEncoderStateStruct::new(a), led, ext: UnionHasher::Uninit, ev0: 0, ir_calls: 0 } }
+    pub fn new() -> RustInst { let (a, led) = CAlloc::new(); RustInst { s: BrotliEncoderStateStruct::new(a), led, ext: UnionHasher::Uninit, ev0: 0, ir_calls: 0, cq: vec![], cq_unpaired: 0 } }
     /// a pre-computed hasher made by the caller with the instance's own allocator (what CompressMulti does)
     pub fn make_ext_hasher(&mut self) {
         let mut p = self.s.params.clone();
@@ -492,8 +500,28 @@ impl Inst for RustInst {
         let mut out = vec![0u8; out_cap];
         let (mut ai, mut io, mut ao, mut oo) = (input.len(), 0usize, out_cap, 0usize);
         let mut ir = 0u64;
-        let r = self.s.compress_stream(op_of(op), &mut ai, input, &mut io, &mut ao, &mut out, &mut oo, &mut None, &mut |_a, _b, _c, _d| { ir += 1; });
+        let mut pushes: Vec<usize> = vec![];
+        let e0 = self.led.events_len();
+        let r = self.s.compress_stream(op_of(op), &mut ai, input, &mut io, &mut ao, &mut out, &mut oo, &mut None, &mut |_a, b, _c, _d| { ir += 1; pushes.push(b.len()); });
         self.ir_calls += ir;
+        if ir > 0 {
+            // the IR command queue of each logged meta-block: first allocation, doublings, release
+            let mut groups: Vec<(Vec<usize>, u64, u64)> = vec![];
+            let (mut cur, mut pending): (Option<u64>, Option<u64>) = (None, None);
+            let mut g: (Vec<usize>, u64, u64) = (vec![], 0, 0);
+            for e in self.led.events_from(e0).iter().filter(|e| e.ty.contains("interface::Command<")) {
+                match e.kind {
+                    'A' => { if cur.is_none() { g = (vec![e.len], 1, 0); cur = Some(e.bid); } else { g.0.push(e.len); g.1 += 1; pending = Some(e.bid); } }
+                    'F' => { g.2 += 1; if pending.is_some() && Some(e.bid) == cur { cur = pending.take(); } else if Some(e.bid) == cur { groups.push(g.clone()); cur = None; } else { g.2 += 1000; } }
+                    _ => { g.2 += 100000; }
+                }
+            }
+            if groups.len() == pushes.len() && cur.is_none() {
+                for (gr, p) in groups.iter().zip(pushes.iter()) {
+                    if self.cq.len() < 6 { self.cq.push((format!("ledger cq {} {}", gr.0[0], p), format!("a={} f={} live=0 caps={} loc={} ok=1", gr.1, gr.2, gr.0.iter().map(|x| x.to_string()).collect::<Vec<_>>().join("+"), p))); }
+                }
+            } else { self.cq_unpaired += 1; }
+        }
         (r, io, oo)
     }
     fn take_output(&mut self, max: usize) -> usize { let mut sz = max; self.s.take_output(&mut sz).len().min(sz) }
@@ -567,14 +595,20 @@ pub fn gen_input(r: &mut Rng, n: usize) -> Vec<u8> {
 }
 
 #[derive(Clone, Debug)]
-pub struct Cfg { pub q: u32, pub lgwin: u32, pub catable: bool, pub appendable: bool, pub magic: bool, pub log_mb: bool, pub large: bool, pub size_hint: u32, pub lgblock: u32, pub dict: usize, pub prehash: bool, pub middict: bool, pub favor: bool }
+pub struct Cfg { pub q: u32, pub lgwin: u32, pub catable: bool, pub appendable: bool, pub magic: bool, pub log_mb: bool, pub large: bool, pub size_hint: u32, pub lgblock: u32, pub dict: usize, pub prehash: bool, pub middict: bool, pub favor: bool, pub ir: [u32; 4] }
 impl Cfg {
     pub fn gen(r: &mut Rng, thorough: bool) -> Cfg {
         let q = if r.chance(1, 3) { *r.pick(&[0u32, 1, 1, 10, 11]) } else { r.below(12) as u32 };
         let mut lgwin = match r.below(10) { 0 => 10, 1 => 22, 2 | 3 => 17 + r.below(2) as u32, _ => 10 + r.below(10) as u32 };
         if q >= 10 && lgwin > 18 && !thorough { lgwin = 18; }
         let dict = if r.chance(1, 3) { *r.pick(&[1usize, 2, 17, 500, 5000, 70000]) } else { 0 };
-        Cfg { q, lgwin, catable: r.chance(1, 5), appendable: r.chance(1, 5), magic: r.chance(1, 8), log_mb: r.chance(1, 6), large: r.chance(1, 16), size_hint: if r.chance(1, 4) { *r.pick(&[1u32, 1000, 1 << 20, 1 << 22]) } else { 0 }, lgblock: if r.chance(1, 6) { 16 + r.below(9) as u32 } else { 0 }, dict, prehash: dict > 0 && r.chance(1, 3), middict: r.chance(1, 24), favor: r.chance(1, 2) }
+        Cfg { q, lgwin, catable: r.chance(1, 5), appendable: r.chance(1, 5), magic: r.chance(1, 8), log_mb: r.chance(1, 6), large: r.chance(1, 16), size_hint: if r.chance(1, 4) { *r.pick(&[1u32, 1000, 1 << 20, 1 << 22]) } else { 0 }, lgblock: if r.chance(1, 6) { 16 + r.below(9) as u32 } else { 0 }, dict, prehash: dict > 0 && r.chance(1, 3), middict: r.chance(1, 24), favor: r.chance(1, 2), ir: [0; 4] }.with_ir(r)
+    }
+    /// analysis passes of the IR logger (each has its own temporaries): stride detection, high-entropy
+    /// detection, CDF adaptation detection, prior bitmask detection — only meaningful with log_mb
+    fn with_ir(mut self, r: &mut Rng) -> Cfg {
+        if self.log_mb && r.chance(1, 2) { self.ir = [r.below(4) as u32, r.below(2) as u32, r.below(3) as u32, r.below(2) as u32]; }
+        self
     }
     pub fn apply<I: Inst>(&self, i: &mut I) {
         use BrotliEncoderParameter::*;
@@ -585,10 +619,14 @@ impl Cfg {
         if self.appendable { i.set_param(BROTLI_PARAM_APPENDABLE, 1); }
         if self.magic { i.set_param(BROTLI_PARAM_MAGIC_NUMBER, 1); }
         if self.log_mb { i.set_param(BROTLI_METABLOCK_CALLBACK, 1); }
+        if self.ir[0] != 0 { i.set_param(BROTLI_PARAM_STRIDE_DETECTION_QUALITY, self.ir[0]); }
+        if self.ir[1] != 0 { i.set_param(BROTLI_PARAM_HIGH_ENTROPY_DETECTION_QUALITY, self.ir[1]); }
+        if self.ir[2] != 0 { i.set_param(BROTLI_PARAM_CDF_ADAPTATION_DETECTION, self.ir[2]); }
+        if self.ir[3] != 0 { i.set_param(BROTLI_PARAM_PRIOR_BITMASK_DETECTION, self.ir[3]); }
         if self.large { i.set_param(BROTLI_PARAM_LARGE_WINDOW, 1); }
         if self.size_hint != 0 { i.set_param(BROTLI_PARAM_SIZE_HINT, self.size_hint); }
     }
-    pub fn json(&self) -> String { format!("{{\"q\":{},\"lgwin\":{},\"catable\":{},\"appendable\":{},\"magic\":{},\"log_mb\":{},\"large\":{},\"size_hint\":{},\"lgblock\":{},\"dict\":{},\"prehash\":{},\"middict\":{}}}", self.q, self.lgwin, self.catable, self.appendable, self.magic, self.log_mb, self.large, self.size_hint, self.lgblock, self.dict, self.prehash, self.middict) }
+    pub fn json(&self) -> String { format!("{{\"q\":{},\"lgwin\":{},\"catable\":{},\"appendable\":{},\"magic\":{},\"log_mb\":{},\"large\":{},\"size_hint\":{},\"lgblock\":{},\"dict\":{},\"prehash\":{},\"middict\":{},\"ir\":{:?}}}", self.q, self.lgwin, self.catable, self.appendable, self.magic, self.log_mb, self.large, self.size_hint, self.lgblock, self.dict, self.prehash, self.middict, self.ir) }
     pub fn budget(&self, thorough: bool) -> usize { let m = if thorough { 4 } else { 1 }; m * match self.q { 10 | 11 => 40_000, 5..=9 => 300_000, _ => 700_000 } }
 }
 
@@ -715,6 +753,8 @@ fn rust_instance_case(seed: u64, thorough: bool) -> (Vec<(String, String)>, Repo
         record(&mut t, "cl", &o, &mut sc, &mut rep, &case, None);
         let led = inst.led.clone();
         let ir = inst.ir_calls;
+        let cq = std::mem::take(&mut inst.cq);
+        let cqu = inst.cq_unpaired;
         drop(inst);
         let (a, f, x, d) = led.counts();
         if led.live_count() != 0 || d != 0 {
@@ -729,12 +769,13 @@ fn rust_instance_case(seed: u64, thorough: bool) -> (Vec<(String, String)>, Repo
         rep.add("inst.rust.calls", sc.calls);
         rep.add("inst.rust.allocs", a);
         if ir > 0 { rep.count("inst.rust.ir_callback_ran"); }
+        if cfg.ir != [0; 4] { rep.count("inst.rust.ir_analysis_passes"); }
         rep.count(&format!("inst.rust.q{}", cfg.q));
         if cfg.dict > 0 { rep.count(if cfg.prehash { "inst.rust.dict_precomputed_hasher" } else { "inst.rust.dict" }); }
         count_growth(&sc, &mut rep, "inst.rust");
-        (format!("ledger inst rust {} {}", cfg.q, sc.toks.join(" ")), sc.ans.join(" "))
+        (format!("ledger inst rust {} {}", cfg.q, sc.toks.join(" ")), sc.ans.join(" "), cq, cqu)
     }));
-    match res { Ok(l) => lines.push(l), Err(_) => { rep.count("inst.rust.panic"); rep.violation("ledger:panic", "panic inside a streaming history (blocks held by the instance are lost)", case) } }
+    match res { Ok((a, b, cq, cqu)) => { lines.push((a, b)); if cqu > 0 { rep.add("inst.rust.ir_queue_unpaired", cqu); } for l in cq { if l.1.contains('+') { rep.count("inst.rust.ir_queue_grew"); } rep.count("inst.rust.ir_queue_lines"); lines.push(l); } }, Err(_) => { rep.count("inst.rust.panic"); rep.violation("ledger:panic", "panic inside a streaming history (blocks held by the instance are lost)", case) } }
     (lines, rep)
 }
 
@@ -1058,8 +1099,157 @@ fn ffi_multi_case(seed: u64, _thorough: bool) -> (Vec<(String, String)>, Report)
     (vec![(format!("ledger ep {} q{} t{}", if pool { "ffi-pool" } else { "ffi-multi" }, q, t), if live > 0 { "leak".to_string() } else { "clean".to_string() })], rep)
 }
 
+// ---------------------------------------------------------------------------------------------
+// default allocator of the C ABI (alloc_func = NULL): observed through a counting #[global_allocator]
+// ---------------------------------------------------------------------------------------------
+// The wrapper is a pass-through to `System` for every engine; it only counts while `G_ON` is set, and that
+// happens only in the child processes this engine spawns (`bvh ledger gchild <seed> <n>`), because the
+// counter is process-global.
+
+pub struct CountingGlobal;
+static G_ON: std::sync::atomic::AtomicBool = std::sync::atomic::AtomicBool::new(false);
+static G_BLOCKS: std::sync::atomic::AtomicI64 = std::sync::atomic::AtomicI64::new(0);
+static G_BYTES: std::sync::atomic::AtomicI64 = std::sync::atomic::AtomicI64::new(0);
+unsafe impl std::alloc::GlobalAlloc for CountingGlobal {
+    unsafe fn alloc(&self, l: std::alloc::Layout) -> *mut u8 {
+        let p = std::alloc::System.alloc(l);
+        if G_ON.load(Ordering::Relaxed) && !p.is_null() { G_BLOCKS.fetch_add(1, Ordering::Relaxed); G_BYTES.fetch_add(l.size() as i64, Ordering::Relaxed); }
+        p
+    }
+    unsafe fn alloc_zeroed(&self, l: std::alloc::Layout) -> *mut u8 {
+        let p = std::alloc::System.alloc_zeroed(l);
+        if G_ON.load(Ordering::Relaxed) && !p.is_null() { G_BLOCKS.fetch_add(1, Ordering::Relaxed); G_BYTES.fetch_add(l.size() as i64, Ordering::Relaxed); }
+        p
+    }
+    unsafe fn dealloc(&self, p: *mut u8, l: std::alloc::Layout) {
+        if G_ON.load(Ordering::Relaxed) { G_BLOCKS.fetch_sub(1, Ordering::Relaxed); G_BYTES.fetch_sub(l.size() as i64, Ordering::Relaxed); }
+        std::alloc::System.dealloc(p, l)
+    }
+    unsafe fn realloc(&self, p: *mut u8, l: std::alloc::Layout, n: usize) -> *mut u8 {
+        let q = std::alloc::System.realloc(p, l, n);
+        if G_ON.load(Ordering::Relaxed) && !q.is_null() { G_BYTES.fetch_add(n as i64 - l.size() as i64, Ordering::Relaxed); }
+        q
+    }
+}
+#[global_allocator]
+static GLOBAL: CountingGlobal = CountingGlobal;
+fn g_now() -> (i64, i64) { (G_BLOCKS.load(Ordering::SeqCst), G_BYTES.load(Ordering::SeqCst)) }
+
+/// one scenario on the default allocator; everything the harness itself needs is allocated by the caller
+fn gscenario(kind: u64, q: u32, lgwin: u32, t: usize, ncalls: usize, finish: bool, data: &[u8], out: &mut [u8], dict: &[u8]) {
+    use brotli::ffi::compressor::*;
+    use brotli::ffi::multicompress::*;
+    match kind {
+        0 => unsafe {
+            // create / (dictionary) / stream / destroy — possibly before the stream is finished
+            let st = BrotliEncoderCreateInstance(None, None, core::ptr::null_mut());
+            BrotliEncoderSetParameter(st, BrotliEncoderParameter::BROTLI_PARAM_QUALITY, q);
+            BrotliEncoderSetParameter(st, BrotliEncoderParameter::BROTLI_PARAM_LGWIN, lgwin);
+            if !dict.is_empty() { BrotliEncoderSetCustomDictionary(st, dict.len(), dict.as_ptr()); }
+            let step = data.len() / ncalls.max(1) + 1;
+            let mut pos = 0usize;
+            for k in 0..ncalls {
+                let c = step.min(data.len() - pos);
+                let last = k + 1 == ncalls;
+                let mut avail_in = c;
+                let mut next_in = data[pos..].as_ptr();
+                let mut avail_out = out.len();
+                let mut next_out = out.as_mut_ptr();
+                let mut total = 0usize;
+                BrotliEncoderCompressStream(st, if last && finish { BrotliEncoderOperation::BROTLI_OPERATION_FINISH } else if k % 2 == 1 { BrotliEncoderOperation::BROTLI_OPERATION_FLUSH } else { BrotliEncoderOperation::BROTLI_OPERATION_PROCESS }, &mut avail_in, &mut next_in, &mut avail_out, &mut next_out, &mut total);
+                pos += c - avail_in;
+            }
+            BrotliEncoderDestroyInstance(st);
+        },
+        1 => unsafe {
+            let mut osz = out.len();
+            BrotliEncoderCompress(q as i32, lgwin as i32, BrotliEncoderMode::BROTLI_MODE_GENERIC, data.len(), data.as_ptr(), &mut osz, out.as_mut_ptr());
+        },
+        2 => unsafe {
+            let keys = [BrotliEncoderParameter::BROTLI_PARAM_QUALITY, BrotliEncoderParameter::BROTLI_PARAM_LGWIN];
+            let vals = [q, lgwin];
+            let mut osz = out.len();
+            BrotliEncoderCompressMulti(2, keys.as_ptr(), vals.as_ptr(), data.len(), data.as_ptr(), &mut osz, out.as_mut_ptr(), t, None, None, core::ptr::null_mut());
+        },
+        _ => unsafe {
+            let keys = [BrotliEncoderParameter::BROTLI_PARAM_QUALITY, BrotliEncoderParameter::BROTLI_PARAM_LGWIN];
+            let vals = [q, lgwin];
+            let mut osz = out.len();
+            let wp = BrotliEncoderCreateWorkPool(t, None, None, core::ptr::null_mut());
+            BrotliEncoderCompressWorkPool(wp, 2, keys.as_ptr(), vals.as_ptr(), data.len(), data.as_ptr(), &mut osz, out.as_mut_ptr(), t, None, None, core::ptr::null_mut());
+            BrotliEncoderDestroyWorkPool(wp);
+        },
+    }
+}
+/// child process: `bvh ledger gchild <seed> <n>`; prints one line `G kind q lgwin t ncalls finish n dict dblocks dbytes` per scenario
+fn run_gchild(seed: u64, n: usize) {
+    let mut r = Rng::new(seed ^ 0x6c0ba1);
+    let mut scn = vec![];
+    for i in 0..n {
+        let kind = (i as u64) % 4;
+        let q = if r.chance(1, 3) { *r.pick(&[0u32, 1, 10, 11]) } else { r.below(12) as u32 };
+        let lgwin = 10 + r.below(if q >= 10 { 8 } else { 11 }) as u32;
+        let t = 1 + r.below(4) as usize;
+        let ncalls = 1 + r.below(4) as usize;
+        let finish = !r.chance(1, 3);
+        let len = if r.chance(1, 6) { 0 } else { r.below(if q >= 10 { 20000 } else { 120000 }) as usize };
+        let dl = if kind == 0 && r.chance(1, 3) { 1 + r.below(3000) as usize } else { 0 };
+        scn.push((kind, q, lgwin, t, ncalls, finish, gen_input(&mut r, len), gen_input(&mut r, dl)));
+    }
+    let mut out = vec![0u8; 400000];
+    let mut lines: Vec<String> = Vec::with_capacity(n + 8);
+    // the library prints "leaking memory block ..." through print!: let stdout allocate its buffer first
+    println!("gchild start");
+    G_ON.store(true, Ordering::SeqCst);
+    // warm-up: lazily initialised process-wide state (thread-locals, the std runtime) is not a leak
+    for s in scn.iter().take(4) { gscenario(s.0, s.1, s.2, s.3, s.4, s.5, &s.6, &mut out, &s.7); }
+    drop(brotli::enc::encode::verif_stream_hook::take());
+    for s in scn.iter() {
+        let b0 = g_now();
+        let res = std::panic::catch_unwind(std::panic::AssertUnwindSafe(|| gscenario(s.0, s.1, s.2, s.3, s.4, s.5, &s.6, &mut out, &s.7)));
+        drop(brotli::enc::encode::verif_stream_hook::take()); // the verification hook's per-thread event log is not the library's
+        let b1 = g_now();
+        G_ON.store(false, Ordering::SeqCst);
+        lines.push(format!("G {} {} {} {} {} {} {} {} {} {} {}", s.0, s.1, s.2, s.3, s.4, s.5 as u32, s.6.len(), s.7.len(), b1.0 - b0.0, b1.1 - b0.1, res.is_err() as u32));
+        G_ON.store(true, Ordering::SeqCst);
+    }
+    G_ON.store(false, Ordering::SeqCst);
+    for l in lines { println!("{}", l); }
+}
+/// parent side: spawn the children, turn their lines into evaluations / violations
+fn run_gchildren(seed: u64, children: usize, n: usize, rep: &mut Report) {
+    let exe = match std::env::current_exe() { Ok(e) => e, Err(_) => { rep.count("default_alloc.no_exe"); return; } };
+    let hs: Vec<_> = (0..children).map(|c| std::process::Command::new(&exe).args(["ledger", "gchild", &format!("{}", seed.wrapping_add(c as u64 * 7919)), &format!("{}", n)]).output()).collect();
+    const KN: [&str; 4] = ["create-stream-destroy", "oneshot", "multi", "workpool"];
+    for (c, o) in hs.into_iter().enumerate() {
+        let o = match o { Ok(o) => o, Err(_) => { rep.count("default_alloc.spawn_failed"); continue; } };
+        let txt = String::from_utf8_lossy(&o.stdout);
+        let mut seen = 0;
+        for l in txt.lines() {
+            if l.starts_with("leaking memory block") { rep.count("default_alloc.library_printed_leaking_memory_block"); }
+            let f: Vec<&str> = l.split(' ').collect();
+            if f.len() != 12 || f[0] != "G" { continue; }
+            seen += 1;
+            let kind: usize = f[1].parse().unwrap_or(0);
+            let (db, dby): (i64, i64) = (f[9].parse().unwrap_or(0), f[10].parse().unwrap_or(0));
+            rep.evaluations += 1;
+            rep.nontrivial += 1;
+            rep.count(&format!("default_alloc.{}", KN[kind.min(3)]));
+            if f[6] == "0" && kind == 0 { rep.count("default_alloc.destroyed_before_finish"); }
+            let case = format!("{{\"engine\":\"ledger\",\"kind\":\"default-alloc\",\"child_seed\":{},\"scenario\":\"{}\",\"q\":{},\"lgwin\":{},\"threads\":{},\"calls\":{},\"finish\":{},\"n\":{},\"dict\":{}}}", seed.wrapping_add(c as u64 * 7919), KN[kind.min(3)], f[2], f[3], f[4], f[5], f[6], f[7], f[8]);
+            if f[11] == "1" { rep.violation("ledger:default-alloc-panic", "panic escaped a C-ABI call on the default allocator", case.clone()); }
+            if db != 0 || dby != 0 { rep.violation(&format!("ledger:default-alloc-leak:{}", KN[kind.min(3)]), &format!("process heap after the call differs from before: {} blocks, {} bytes (C ABI with alloc_func = NULL)", db, dby), case); }
+        }
+        if seen != n { rep.count("default_alloc.child_incomplete"); rep.violation("ledger:default-alloc-child", &format!("child reported {} of {} scenarios (exit {:?})", seen, n, o.status.code()), format!("{{\"engine\":\"ledger\",\"kind\":\"default-alloc\",\"child_seed\":{}}}", seed.wrapping_add(c as u64 * 7919))); }
+    }
+}
+
 pub fn run_cmd(args: &Args) {
     if args.rest.first().map(|s| s.as_str()) == Some("d9") { run_d9(); return; }
+    if args.rest.first().map(|s| s.as_str()) == Some("gchild") {
+        run_gchild(args.rest.get(1).and_then(|x| x.parse().ok()).unwrap_or(1), args.rest.get(2).and_then(|x| x.parse().ok()).unwrap_or(16));
+        return;
+    }
     let thorough = args.tier == "thorough";
     let seed = args.seed;
     let mut corr = Corr::new(&args.out);
@@ -1084,6 +1274,7 @@ pub fn run_cmd(args: &Args) {
         if !s2.ends_with("0, 0) live=0") { rep.violation("ledger:set-dict-drops-hasher", &format!("corpus: {}", s2), "{\"engine\":\"ledger\",\"kind\":\"corpus-set-dict-twice\"}".to_string()); }
         rep.sample(format!("corpus: oneshot q10: {} || set_dict twice: {}", s1, s2));
     }
+    run_gchildren(seed, if thorough { 8 } else { 2 }, 40, &mut rep);
     let m = if thorough { 8 } else { 1 };
     let plan: Vec<(u64, usize)> = vec![(1, 660 * m), (2, 360 * m), (3, 520 * m), (4, 240 * m), (5, 240 * m), (6, 160 * m)];
     let only: Option<u64> = if args.rest.first().map(|s| s.as_str()) == Some("only") { args.rest.get(1).and_then(|x| x.parse().ok()) } else { None };
@@ -1095,7 +1286,9 @@ pub fn run_cmd(args: &Args) {
     let results = par_tasks(tasks.len(), move |i| {
         let (kind, idx) = tk[i];
         let s = seed ^ (kind << 56) ^ (idx << 20) ^ 0x1ed9e5;
-        match kind { 1 => rust_instance_case(s, thorough), 2 => ffi_instance_case(s, thorough), 3 => adapter_case(s, thorough), 4 => oneshot_case(s, thorough), 5 => multi_case(s, thorough), _ => ffi_multi_case(s, thorough) }
+        let r = match kind { 1 => rust_instance_case(s, thorough), 2 => ffi_instance_case(s, thorough), 3 => adapter_case(s, thorough), 4 => oneshot_case(s, thorough), 5 => multi_case(s, thorough), _ => ffi_multi_case(s, thorough) };
+        drop(brotli::enc::encode::verif_stream_hook::take()); // per-thread event log of the stream hook
+        r
     });
     for (lines, r) in results {
         for (a, b) in lines { if a.len() < 60000 { corr.case(&a, &b); } }
